@@ -43,8 +43,29 @@ def families(tier):
   return fams
 
 
+def timing_rows(chk):
+  """the (timeout, body duration, lingering thread, result) rows of PhaseTimeout.tla whose body returns in
+  time, with repeat_on_timeout set: "ERROR for a timeout" / "only re-invoked for ... repeat_on_timeout"
+  need a body that is still running at the deadline - a thread that merely has not exited yet is not one"""
+  import multiprocessing as mp
+  from checks import c12
+  from vf import tlc
+  res = tlc.must_pass(tlc.run('PhaseTimeout', 'PhaseTimeout_mc.cfg', workers=2), 'PhaseTimeout design check')
+  chk.add_tlc('PhaseTimeout', res)
+  rows = [dict(r[0], rot=1) for r in res.prints('ROW') if r[0]['outcome'] != 'TIMEOUT']
+  with mp.Pool(12, maxtasksperchild=20) as pool:
+    outs = pool.map(c12.rows_work, [rows[i::24] for i in range(24)])
+  for n, bad in outs:
+    chk.traces += n
+    chk.nontrivial += n
+    for sig, r in bad:
+      chk.violation(sig, dict(row=r))
+  chk.log('%d in-time rows (some with a lingering phase thread) replayed with repeat_on_timeout' % len(rows))
+
+
 def main(chk):
   execlib.run_families(chk, families(chk.tier), OWNED)
+  timing_rows(chk)
   chk.cov['rule'] = ('option vectors x positions x per-invocation (behaviour, measurement, diagnoser) '
                      'sequences enumerated by TLC; non-trivial = at least two invocations or one record')
   chk.assumptions.append('timeouts run under the cooperative scheduler with virtual time (timeout_s=5)')
@@ -53,4 +74,15 @@ def main(chk):
 
 
 def replay(path):
+  import json
+  with open(path) as fh:
+    sc = json.load(fh).get('scenario', {})
+  if 'row' in sc:
+    from checks import c12
+    bad = c12.run_row(sc['row'])
+    if bad:
+      print('VIOLATION property=C05 replay=%s\n  what: %s' % (path, bad[0]))
+      return 1
+    print('replay: the row behaves as PhaseTimeout.tla says')
+    return 0
   return execlib.replay_file(path, OWNED, 'C05', families)
